@@ -12,8 +12,9 @@ WHITELIST = [
      "declared; the written form already uses that letter"),
     ("line.common.connection.Connection.all_references", "_refs", "attr-store",
      "normalises an empty/None _refs to an empty dict"),
-    ("field.parser.Parser._parse_gfa_field", "__error__", None,
-     "recursion guard flag used only while formatting an error message"),
+    ("*", "__error__", None,
+     "recursion guard flag used only while formatting an error message "
+     "(any store to an attribute of this name)"),
     ("line.segment.writer_wo_sequence.WriterWoSequence.__str__", "*", None,
      "temporary swap of the sequence field, restored before returning; the "
      "pairing is checked separately (rule C10.swap_restore)"),
